@@ -213,6 +213,8 @@ class Group:
         with self._autoidlock:
             if spec.id is None:
                 self._allocate_id(spec)
+            elif not spec.id:
+                raise ValueError("gateway id must not be empty")
             elif self._id_taken(spec.id):
                 raise ValueError(f"already have gateway with id {spec.id!r}")
             self._reserved_ids.add(spec.id)
